@@ -27,7 +27,7 @@ Next ==
                  [] e.ev = "reply" -> O!ObsReply(obs, e.id, e.status, e.kind, e.h)
                  [] e.ev = "mark" -> O!ObsMark(obs, e.b)
                  [] e.ev = "probe" -> O!ObsProbe(obs, e.b, e.r)
-                 [] e.ev = "admin" -> O!ObsAdmin(obs, e.op, e.name, e.w, e.s, e.status, e.pre, e.items)
+                 [] e.ev = "admin" -> O!ObsAdmin(obs, e.op, e.name, e.w, e.s, e.status, e.pre, e.items, e.bad)
                  [] e.ev = "snap" -> O!ObsSnap(obs, e)
                  [] OTHER -> O!Q(obs)
 
